@@ -15,6 +15,7 @@
 (*          and verified here), ok, flag, res/resLen/resEq, consumed, reach, alloc, err, exp/expCons *)
 (*  Written one call of WriteTCPRequest/WriteTCPResponse: the produced bytes in the same *)
 (*          window form (after the frame-type varint `pre` of a request), the input (inLen, inp/inEq, flagIn) *)
+(*  E2E     one client.TCP call against a real server with a recording outbound (see E2EClauses)  *)
 EXTENDS Mon
 
 Huge == 2147483647        \* stands for every value >= 2^31-1
@@ -121,6 +122,17 @@ WriteClauses(m, e) ==
                                    \/ p.l1 # e.inLen \/ ~same \/ ~stOk)>>,
         <<"DRIFT_WriteOnce", inDom /\ e.nwrites # 1>> >>
 
+\* ---------- end to end (client.TCP <-> server over a real QUIC stream) ------
+\* e: addrLen, msgLen (-1: the target accepts), called/addrSame (what the outbound saw), dialOk, payloadSame (first bytes
+\* behind the request frame reached the target), replySame (first bytes behind the response frame reached the client),
+\* isDialErr/msgSame (the client's error carries the target's message)
+E2EClauses(m, e) ==
+  LET inDom == e.addrLen >= 1 /\ e.addrLen <= m.lim.a IN
+  << <<"E2EAddr",    inDom /\ ~(e.called /\ e.addrSame)>>,
+     <<"E2EReject",  ~inDom /\ e.called>>,
+     <<"E2EPayload", inDom /\ e.msgLen = -1 /\ e.called /\ e.addrSame /\ ~(e.dialOk /\ e.payloadSame /\ e.replySame)>>,
+     <<"E2EMessage", inDom /\ e.msgLen >= 0 /\ e.msgLen <= m.lim.m /\ e.called /\ e.addrSame /\ ~(~e.dialOk /\ e.isDialErr /\ e.msgSame)>> >>
+
 DriftClauses == {"DRIFT_HarnessWindow", "DRIFT_Reach", "DRIFT_RejectLate", "DRIFT_RejectKind", "DRIFT_Truncated",
                  "DRIFT_Model", "DRIFT_Alloc", "DRIFT_Status", "DRIFT_WriteOnce", "DRIFT_Consts"}
 
@@ -134,5 +146,6 @@ MonStep(m, e, ln) ==
                                            !.lim = [a |-> e.lim[1], m |-> e.lim[2], p |-> e.lim[3]]]
     [] e.ev = "Read"    -> [m EXCEPT !.viol = Judge(m.viol, e, ln, ReadClauses(m, e))]
     [] e.ev = "Written" -> [m EXCEPT !.viol = Judge(m.viol, e, ln, WriteClauses(m, e))]
+    [] e.ev = "E2E"     -> [m EXCEPT !.viol = Judge(m.viol, e, ln, E2EClauses(m, e))]
     [] OTHER            -> m
 ===========================================================================
